@@ -540,6 +540,8 @@ func ruleR09_45(c *Ctx) {
 		}
 		c.obRF("R09.4", ra, "reset-writes", n == 2, "ResetAuth overwrites the two security keys", fmt.Sprintf("%d writes", n))
 	}
+	ruleResetAuthShadows(c, "R09.4")
+	ruleContentTypeAccessorParses(c, "R09.5")
 	p := c.P
 	memos := []memo{
 		{"(*rt/middleware.Context).ContentType", "ctxContentType", []string{"rt.ContentType"}, 2, 0},
@@ -696,16 +698,27 @@ func ruleR09_45(c *Ctx) {
 		if len(comps) == 1 {
 			val := unboxed(wvArg(wr, 2))
 			ok := false
+			var foreign *Origin
 			for _, o := range originsOf(val) {
-				if o.V == comps[0].Value() {
+				o := o
+				switch x := o.V.(type) {
+				case *ssa.Alloc: // &contentTypeValue{mt, cs}
 					ok = true
-				}
-				if al, isA := o.V.(*ssa.Alloc); isA { // &contentTypeValue{mt, cs}
-					_ = al
-					ok = true
+				case *ssa.Const:
+				default:
+					if x == comps[0].Value() {
+						ok = true
+					} else if foreign == nil {
+						foreign = &o
+					}
 				}
 			}
 			c.obI("R09.5", wr, "stores-computed-value", ok, "the value memoised is the one just computed", "stored value "+describe(val))
+			// … by THIS request's computation alone: nothing remembered from another request (a per-Context table keyed
+			// by a header value, say) is ever written into a request's context in its place
+			if ok {
+				c.obI("R09.5", wr, "memo-holds-nothing-from-elsewhere", foreign == nil, "what a request's context memoises comes from the computing call made for this very request — on every path", "the memoised value can also be "+describeOrigin(foreign))
+			}
 		}
 	}
 	// the raw Content-Type parser is asked by the memoising accessor (and by the generated-server gate, which has no
@@ -938,4 +951,85 @@ func mapFieldMadePerRequest(p *Prog, reach map[*ssa.Function]bool, typeName, fie
 		}
 	}
 	return n > 0
+}
+
+// ruleResetAuthShadows: ResetAuth ALWAYS hands back a shallow copy of the request whose context shadows principal and
+// scopes with nil — whatever the request held (a principal cached for an alternative without scopes included) — and it
+// never writes through the request it is given (the caller's value, and every stage result memoised in it, stay as
+// they were). Shared by C09 (R09.4) and C02 (a reset really forgets the cached admission).
+func ruleResetAuthShadows(c *Ctx, rule string) {
+	ra := c.P.Fn("(*rt/middleware.Context).ResetAuth")
+	req := paramOf(ra, 0)
+	wvs := withValueCalls(ra, "rt/middleware.contextKey")
+	princ, scopes := int64Const(c.P, "rt/middleware", "ctxSecurityPrincipal"), int64Const(c.P, "rt/middleware", "ctxSecurityScopes")
+	n := 0
+	for _, r := range realReturns(ra) {
+		n++
+		okCopy, bad := allOrigins(resOf(r, 0), oCallWhere(-1, "(*net/http.Request).WithContext", func(w *ssa.Call) bool {
+			okR, _ := allOrigins(w.Call.Args[0], oIsValue(req))
+			return okR
+		}))
+		c.obI(rule, r, "reset-returns-a-shadowing-copy", okCopy, "every exit of ResetAuth returns request.WithContext(…): a copy whose context shadows the security keys (no 'nothing to reset' shortcut hands the cached principal back)", "it can return "+describeOrigin(bad))
+		for _, k := range []int64{princ, scopes} {
+			passed := true
+			var writers []ssa.Instruction
+			for call, kk := range wvs {
+				if kk == k {
+					if isNilConst(unboxed(wvArg(call, 2))) || isNilConst(wvArg(call, 2)) {
+						writers = append(writers, call)
+					}
+				}
+			}
+			if len(writers) == 0 || pathExists(ra, nil, r, nil, isOneOf(writers...)) {
+				passed = false
+			}
+			c.obI(rule, r, fmt.Sprintf("reset-shadows-key-%d", k), passed, "on every path ResetAuth shadows the principal and the scopes key with nil", "an exit is reachable without the key having been shadowed")
+		}
+	}
+	c.obRF(rule, ra, "reset-returns", n >= 1, "ResetAuth returns a request", "")
+	for _, in := range instrs(ra) {
+		if st, ok := in.(*ssa.Store); ok {
+			if toReq, _ := allOrigins(st.Addr, oIsValue(req)); toReq {
+				c.obD(rule, st, "reset-never-writes-the-given-request", false, "ResetAuth does not store through the *http.Request it is given", "the caller's request value is overwritten in place")
+			}
+		}
+	}
+}
+
+// ruleContentTypeAccessorParses: what Context.ContentType answers (and memoises) as the media type and charset is what
+// runtime.ContentType parsed from the header — lower-cased, parameter-free — or the memoised result of an earlier such
+// parse; never the raw header text (the consumer tables are keyed by the parsed form). Shared by C09, C06 and C19.
+func ruleContentTypeAccessorParses(c *Ctx, rule string) {
+	f := c.P.Fn("(*rt/middleware.Context).ContentType")
+	parses := callsIn(f, "rt.ContentType")
+	if len(parses) != 1 {
+		c.obRF(rule, f, "accessor-parses-content-type", false, "Context.ContentType parses the header with runtime.ContentType", fmt.Sprintf("%d calls", len(parses)))
+		return
+	}
+	pc := parses[0].(*ssa.Call)
+	n := 0
+	for _, r := range realReturns(f) {
+		if len(r.Results) < 4 || !isNilConst(resOf(r, 3)) {
+			continue
+		}
+		n++
+		for i, field := range []string{"MediaType", "Charset"} {
+			ok, bad := allOrigins(resOf(r, i), oIsValue(resultOf(pc, i)), oFieldLoad("rt/middleware.contentTypeValue", field, nil))
+			c.obI(rule, r, "accessor-answers-the-parsed-"+strings.ToLower(field), ok, "Context.ContentType answers runtime.ContentType's "+field+" (or the memoised one), never text taken from the header directly", "it can answer "+describeOrigin(bad))
+		}
+	}
+	c.obRF(rule, f, "accessor-success-returns", n >= 2, "Context.ContentType has a cache-hit and a computed success return", fmt.Sprintf("%d", n))
+	// … and the same holds for what it memoises
+	for _, in := range instrs(f) {
+		st, ok := in.(*ssa.Store)
+		if !ok {
+			continue
+		}
+		for i, field := range []string{"MediaType", "Charset"} {
+			if _, isF := fieldAddrOf(st.Addr, "rt/middleware.contentTypeValue", field); isF {
+				okV, bad := allOrigins(st.Val, oIsValue(resultOf(pc, i)))
+				c.obI(rule, st, "memoised-"+strings.ToLower(field)+"-is-the-parsed-one", okV, "the "+field+" memoised in the request context is runtime.ContentType's", "it can be "+describeOrigin(bad))
+			}
+		}
+	}
 }
